@@ -12,7 +12,10 @@ import subprocess
 IMPL_TIMEOUT = 300
 
 CODES = ["m1", "m2", "m3", "m7", "m64"]
-UNORDERED = {"hash", "mhm", "mtm", "builtin", "set"}
+# containers whose Keys()/Values() order is unspecified (Go map iteration): compared as sorted multisets.
+# Tree-backed containers are compared IN ORDER: ltm = insertion order (order list), mtm = ascending by the
+# comparator with Values aligned to Keys (theorems multi_treemap_keys_ascending / _keys_values_aligned).
+UNORDERED = {"hash", "mhm", "builtin", "set"}
 BIG = [(1 << 63) - 1, -(1 << 63), (1 << 62), -(1 << 62) + 1, (1 << 32), -(1 << 32) - 1]
 
 
@@ -307,35 +310,47 @@ def canon_dump(d):
     return "&".join(buckets) + "#" + sz
 
 
-def canon_op(container, s):
+def canon_op(container, s, eq="x", model=False):
     f = s.split("/")
     if len(f) < 2:
         return f
     if container == "set":
-        return [f[0], ";".join(sorted(f[1].split(";")))]
+        f[1] = ";".join(sorted(f[1].split(";")))
+        return f
     if container in UNORDERED:
         f[2] = ";".join(sorted(f[2].split(";")))
         f[3] = ";".join(sorted(f[3].split(";")))
+    elif container == "mtm" and model and f[2] != "":
+        # the decorator model runs over the ABSTRACT map (insertion order); the tree-backed multi map must
+        # list keys ascending by the comparator, values aligned with them: sort the model's (key, values)
+        # PAIRS by the comparator class and compare with the implementation's sequences as they are
+        ks, vs = f[2].split(";"), f[3].split(";")
+        if len(ks) == len(vs):
+            pairs = sorted(zip(ks, vs), key=lambda kv: py_cls(eq, int(kv[0])))
+            f[2] = ";".join(k for k, _ in pairs)
+            f[3] = ";".join(v for _, v in pairs)
     if len(f) > 4:
         f[4] = canon_dump(f[4])
     return f
 
 
-FIELDS = ["ret", "len", "keys", "vals", "dump", "backward"]
+FIELDS = ["ret", "len", "keys", "vals", "dump", "nil", "align", "backward"]
+SET_FIELDS = ["ret", "keys", "nil"]
 API_FIELDS = 4      # ret, len, keys, vals are what the refinement theorem speaks about
 
 
-def canon_line(container, line):
-    return [canon_op(container, s) for s in line.split("|")]
+def canon_line(container, line, eq="x", model=False):
+    return [canon_op(container, s, eq, model) for s in line.split("|")]
 
 
-def first_diff(container, impl_line, other_line, api_only=False):
-    """-> None or (op index, field name, impl value, other value)"""
-    a, b = canon_line(container, impl_line), canon_line(container, other_line)
+def first_diff(container, impl_line, other_line, api_only=False, eq="x", a_model=False, b_model=True):
+    """-> None or (op index, field name, first value, second value)"""
+    a, b = canon_line(container, impl_line, eq, a_model), canon_line(container, other_line, eq, b_model)
+    names = SET_FIELDS if container == "set" else FIELDS
+    n = 2 if container == "set" else API_FIELDS
     for i in range(max(len(a), len(b))):
         x = a[i] if i < len(a) else ["<missing>"]
         y = b[i] if i < len(b) else ["<missing>"]
-        n = min(API_FIELDS, 2) if container == "set" else API_FIELDS
         if api_only:
             x, y = x[:n], y[:n]
         if x != y:
@@ -343,8 +358,7 @@ def first_diff(container, impl_line, other_line, api_only=False):
                 xv = x[j] if j < len(x) else "<missing>"
                 yv = y[j] if j < len(y) else "<missing>"
                 if xv != yv:
-                    name = FIELDS[j] if container != "set" else ["ret", "keys"][min(j, 1)]
-                    return (i, name, xv, yv)
+                    return (i, names[min(j, len(names) - 1)], xv, yv)
     return None
 
 
@@ -363,7 +377,7 @@ def minimise(c, binary, h):
         spec = c.run_model("hash-spec", text)
         res = []
         for i in range(len(cands)):
-            d = first_diff(container, impl[i] if i < len(impl) else "<missing>", spec[i], api_only=True)
+            d = first_diff(container, impl[i] if i < len(impl) else "<missing>", spec[i], api_only=True, eq=eq)
             res.append(d)
         return res
 
@@ -391,11 +405,11 @@ def examine(c, binary, h, impl_line, model_line, pid_tag):
     """Layer 3 for one history whose canonical observables differ between implementation and model."""
     container, code, eq, ops = h[0], h[1], h[2], h[3]
     lawless = code.startswith("L")
-    d = first_diff(container, impl_line, model_line)
+    d = first_diff(container, impl_line, model_line, eq=eq)
     if d is None:
         return
     case = case_line(h)
-    api = first_diff(container, impl_line, model_line, api_only=True)
+    api = first_diff(container, impl_line, model_line, api_only=True, eq=eq)
     if api is not None and not lawless:
         # refinement property: the model's API observables ARE the abstract map's (theorem), so this is
         # a concrete history on which the implementation differs from the specification
@@ -421,8 +435,27 @@ def examine(c, binary, h, impl_line, model_line, pid_tag):
                  {"kind": "correspondence", "case": case, "op_index": api[0], "field": api[1],
                   "implementation": api[2], "model": api[3]}, found_input=False)
         return
-    # only a white-box observable differs (bucket dump / backward walk): decide the invariant on the dump
+    # only a non-API observable differs
     i, field, iv, mv = d
+    if field == "align" and not lawless:
+        # the implementation's own Keys()/Values()/Get disagree with each other: Values()[i] is not the value
+        # stored under Keys()[i], although this container lists both in the same order (theorems
+        # linkedmap_keys_values_aligned / multi_treemap_keys_values_aligned) - a concrete failing history
+        c.report("%s:%s:align" % (pid_tag, container),
+                 "%s: Values()[i] is not the value of Keys()[i] (%s) after %s" % (container, iv, ",".join(ops[:i + 1])),
+                 {"kind": "history", "container": container, "code": code, "equals": eq, "ops": ops[:i + 1],
+                  "alignment": iv, "how": "echo '%s' | harness/bin/h c03" % case_line((container, code, eq, ops[:i + 1]))})
+        return
+    if field == "nil":
+        # nil vs empty-non-nil result of Keys()/Values(): not promised by the property text (C03 speaks about the
+        # listed entries only), but the model encodes what the code returns (make(..., 0, n), never nil)
+        c.report("%s:%s:nil" % (pid_tag, container),
+                 "%s: nil-ness of the Keys()/Values() result changed (implementation nil flags %r, the code modelled returns "
+                 "%r; K = Keys() nil, V = Values() nil) after %s: correspondence broken, no property clause violated"
+                 % (container, iv, mv, ",".join(ops[:i + 1])),
+                 {"kind": "correspondence", "case": case, "op_index": i, "field": field, "implementation": iv, "model": mv},
+                 found_input=False)
+        return
     if field == "dump" and "#" in iv:
         wf = c.run_model("hash-wf", "%s %s %s\n" % (code, eq, iv))
         if wf and wf[0] == "false" and not lawless:
@@ -461,13 +494,13 @@ def run_batch(c, binary, hs, pid_tag, check_spec=True):
         il = impl[i] if i < len(impl) else "<missing>"
         ml = model[i] if i < len(model) else "<missing>"
         nops += len(h[3])
-        if first_diff(h[0], il, ml) is None:
+        if first_diff(h[0], il, ml, eq=h[2]) is None:
             good += 1
         else:
             examine(c, binary, h, il, ml, pid_tag)
         if spec is not None and not h[1].startswith("L"):
             # the theorem, observed: the extracted model and the extracted specification agree
-            ds = first_diff(h[0], ml, spec[i], api_only=True)
+            ds = first_diff(h[0], ml, spec[i], api_only=True, eq=h[2], a_model=True)
             if ds is not None:
                 c.report("%s:%s:extracted-model-vs-spec" % (pid_tag, h[0]),
                          "extracted model and extracted specification differ on %s (contradicts the refinement theorem: extraction or driver defect)" % ds[1],
